@@ -48,6 +48,9 @@ type Case struct {
 	Params json.RawMessage `json:"params"`
 	// Race asks for the case to run in the -race build of the worker.
 	Race bool `json:"race,omitempty"`
+	// Arch386 asks for the case to run in the GOARCH=386 build of the
+	// worker (32-bit int, portable kernels) on the same machine.
+	Arch386 bool `json:"arch386,omitempty"`
 }
 
 // Result is what running one case produced.
@@ -455,6 +458,7 @@ func trunc(s string, n int) string {
 type batch struct {
 	cases []Case
 	race  bool
+	a386  bool
 }
 
 // RunAll executes all cases in child processes and returns results in
@@ -476,9 +480,11 @@ func RunAll(ck Check, cases []Case, exe string) []Result {
 		}
 	}
 	var batches []batch
-	var plain, race []Case
+	var plain, race, a386 []Case
 	for _, c := range cases {
-		if c.Race {
+		if c.Arch386 {
+			a386 = append(a386, c)
+		} else if c.Race {
 			race = append(race, c)
 		} else {
 			plain = append(plain, c)
@@ -489,7 +495,7 @@ func RunAll(ck Check, cases []Case, exe string) []Result {
 		if j > len(plain) {
 			j = len(plain)
 		}
-		batches = append(batches, batch{plain[i:j], false})
+		batches = append(batches, batch{plain[i:j], false, false})
 	}
 	// Race workers are expensive to start (table initialisation
 	// under the race detector): one long-lived worker per core.
@@ -502,7 +508,14 @@ func RunAll(ck Check, cases []Case, exe string) []Result {
 		if j > len(race) {
 			j = len(race)
 		}
-		batches = append(batches, batch{race[i:j], true})
+		batches = append(batches, batch{race[i:j], true, false})
+	}
+	for i := 0; i < len(a386); i += bs {
+		j := i + bs
+		if j > len(a386) {
+			j = len(a386)
+		}
+		batches = append(batches, batch{a386[i:j], false, true})
 	}
 	results := make([]Result, len(cases))
 	scratch, err := os.MkdirTemp("", "vw-"+ck.ID()+"-")
@@ -556,6 +569,12 @@ func runBatch(ck Check, o WorkerOpts, exe, scratch string, bi int, b batch, resu
 		outFile := filepath.Join(scratch, fmt.Sprintf("b%d.out.%d", bi, attempts))
 		of, _ := os.Create(outFile)
 		wexe := exe
+		if b.a386 {
+			wexe = os.Getenv("VW_386_EXE")
+			if wexe == "" {
+				panic("VW_386_EXE not set but a case asks for the 386 build")
+			}
+		}
 		cmd := exec.Command(wexe, "worker", ck.ID(), caseFile, journal, strconv.Itoa(from))
 		cmd.Env = append(os.Environ(), "GOTRACEBACK=all")
 		cmd.Env = append(cmd.Env, o.Env...)
